@@ -393,6 +393,10 @@ func init() {
 		checkEffects(r, prog, a, "c13", true)
 		r.importing = "C05"
 		checkValueLookup(r, prog, a, "c05")
+		// "the filter's expression": the tree a Filter evaluates is the parse of its text, as for an Evaluator
+		r.importing = "C03"
+		checkASTIntegrity(r, prog, a, "c03")
+		checkTreeHandedOver(r, prog, a, "c03")
 		r.importing = ""
 		r.Technique = "abstract execution of Execute over element outcomes {true,false,error} (3 loop visits) with def-use identity checks (what is evaluated is what is kept), KindAI panic-site obligations on Execute, constructor census for Filter"
 		r.Explain = "Decides: the nil-filter shortcut comes first and returns the input itself; for lists the elements are visited by Index(0), Index(1), … and the loop ends only when i < Len() is false; for maps entry n is MapIndex(MapKeys()[n]); the value handed to the filter's own evaluator is Interface() of exactly the item that is appended / stored (under its own key) and only when the evaluation was (true, nil); the result is Interface() of a container rooted at MakeSlice(type, 0, …) with the input's own type for slices and SliceOf(Elem) for arrays, or MakeMap(input type); the first element error ends the call with (nil, err); every other kind of input, nil included, reaches an error return without a panicking reflect call. NOT decided: that Evaluate is right (C01…), reflect.Append/SetMapIndex semantics."
